@@ -425,7 +425,7 @@ def run(ctx):
     runs = []
     C = lambda d, s, f, ml, fl, ns: {"DEPTH": d, "SIDES": s, "FULLDEPTH": f, "MAXLINKS": ml, "FULLLINKS": fl, "NSAMPLE": ns, "SEED0": ctx.seed % 60000, "MODE": '"gen"'}
     if ctx.quick:
-        runs.append(("exhaustive: spines depth<=2, full branching depth<=1 (action coverage)", C(2, 1, 1, 1, 1, 0), True))
+        runs.append(("exhaustive: spines depth<=1, full branching depth<=1 (action coverage)", C(1, 1, 1, 1, 1, 0), True))
         runs.append(("exhaustive: spines depth<=3 with a side branch, full branching depth<=2, <=1 link", C(3, 1, 2, 1, 1, 0), False))
         runs.append(("exhaustive: bare spines depth<=5 with <=1 link; 200 pseudo-random wide trees of depth 5", C(5, 0, 0, 1, 0, 200), False))
     else:
@@ -461,7 +461,7 @@ def run(ctx):
                 shapes[s] = shapes.get(s, 0) + n
             findings += fs
         del lines
-    findings += _code_to_spec(ctx, workers, 300 if ctx.quick else 3000)
+    findings += _code_to_spec(ctx, workers, 200 if ctx.quick else 3000)
     for s in shapes:
         ctx.count(("shape", s), n=0)
     ctx.count(n=total["eval"], traces=total["cases"])
